@@ -320,10 +320,20 @@ class DocBuilder:
             elif k < 0.8:
                 h, err = self.add_record(c)
                 changed = changed or h is not None
-            else:
+            elif k < 0.9:
                 ns = g.namespace(allow_empty_prefix=False)
                 w.add_ns(c, ns.prefix, ns.uri)
                 changed = True
+            else:
+                # records arrive from a document whose *default* namespace is another one, under local names this container
+                # already knows: a container without a default of its own adopts that default on the way
+                o = w.new_doc()
+                w.set_default(o, g.choice(["http://default2/", "http://d1/"]))
+                locs = [r_.identifier.localpart for r_ in recs if r_.identifier is not None]
+                for _j in range(g.rng.randint(1, 2)):
+                    w.new_record(o, g.choice(ELEMENT_KINDS), g.choice(locs) if (locs and g.chance(0.7)) else g.local(), [])
+                if w.update(c, o) is None:
+                    changed = True
         return changed
 
     def populate(self, c, n):
